@@ -67,15 +67,6 @@ def DeletedAt (s' : St) (p : List Name) : Prop :=
   ∀ q : List Name, merge s'.disk ((p ++ q).reverse) = .none ∧ liveView s' (p ++ q) = .none ∧
     liveView (importFs s'.disk) (p ++ q) = .none
 
-theorem deletedAt_of_merge (s' : St) (hc' : Consistent s') (p : List Name)
-    (h : ∀ q : List Name, merge s'.disk (q ++ p.reverse) = .none) : DeletedAt s' p := by
-  intro q
-  have hm : merge s'.disk ((p ++ q).reverse) = .none := by
-    rw [List.reverse_append]; exact h q.reverse
-  refine ⟨hm, ?_, ?_⟩
-  · rw [consistent_view_is_merge s' hc', hm]
-  · rw [restart_view_eq_live_of_consistent s' hc', consistent_view_is_merge s' hc', hm]
-
 /-- `deleted_stays_deleted`: after a successful unlink (of a file, symlink or special file living
     in the upper layer, in lower layers, or in both) or a successful rmdir (of a directory that
     lives in the upper layer, in lower layers, or is merged from both; with upper whiteouts to
@@ -86,11 +77,18 @@ theorem deleted_stays_deleted (d : Disk) (hr : d.RootsOK) (ht : d.TreesOK) (ops 
     (p : List Name) (op : Op) (hop : op = .unlink p ∨ op = .rmdir p) (r : Reply) (s' : St)
     (h : runOp op (run (importFs d) ops) = .ok r s') : DeletedAt s' p := by
   have hc := Fbr.Thm.C10.cache_valid_after_history d hr ht ops
+  have key : ∀ (hc' : Consistent s'), (∀ q : List Name, merge s'.disk (q ++ p.reverse) = .none) → DeletedAt s' p := by
+    intro hc' hall q
+    have hm : merge s'.disk ((p ++ q).reverse) = .none := by
+      rw [List.reverse_append]; exact hall q.reverse
+    refine ⟨hm, ?_, ?_⟩
+    · rw [consistent_view_is_merge s' hc', hm]
+    · rw [restart_view_eq_live_of_consistent s' hc', consistent_view_is_merge s' hc', hm]
   rcases hop with rfl | rfl
   · have h1 := (runOp_unlink_gone p _ hc).1 r s' h
-    exact deletedAt_of_merge s' h1.1 p (Fbr.Thm.C10.merge_none_below s'.disk h1.1.roots _ h1.2)
+    exact key h1.1 (merge_none_below s'.disk h1.1.roots _ h1.2)
   · obtain ⟨hm, hc'⟩ := Fbr.Thm.C10.rmdir_refines_plain_fs _ hc p r s' h
-    exact deletedAt_of_merge s' hc' p hm
+    exact key hc' hm
 
 /-- the same from any state with a valid cache (unlink; name kept, superseded by
     `deleted_stays_deleted`) -/
@@ -130,7 +128,7 @@ theorem recreated_dir_is_empty (s : St) (hc : Consistent s) (pp : Path) (n : Nam
     ⟨rfl, rfl, fun _ => ⟨mode, rfl⟩, fun h => (by cases h)⟩ s hc hpm hlo
   rw [h] at this
   obtain ⟨hc', _, ⟨X', hX', hv⟩, hempty, _⟩ := this
-  refine ⟨?_, fun c q => Fbr.Thm.C10.merge_none_below s'.disk hc'.roots _ (hempty rfl c) q, hc'⟩
+  refine ⟨?_, fun c q => merge_none_below s'.disk hc'.roots _ (hempty rfl c) q, hc'⟩
   rw [merge_eq_specStat s'.disk hc'.roots, hX']
   exact hv
 
